@@ -166,6 +166,13 @@ def check(rep, ctx):
             rep.check(R7, got_b is want_b, construct="codegen.versions:VersionRange.matches", stmt=f"{text!r}.matches({v}) = {got_b}",
                       message=f"VersionRange {text!r}: matches({v}) is {got_b}, the message-definition README says {want_b}", file=vfile,
                       line=0, instance=f"{text}|{v}")
+    from ..gen_tables import dataclass_field_invariants
+    R8 = rep.rule("C16-G8-field", "format_dataclass_field: an explicit default is emitted as given whatever the tagging/ignorability; "
+                  "metadata carries the kafka type and the tag iff tagged", floor=40,
+                  necessary_because="ApiVersionsResponse.FinalizedFeaturesEpoch is tagged, ignorable and has default -1: it must stay -1")
+    for row in dataclass_field_invariants(ctx):
+        rep.check(R8, row["ok"], construct="codegen.generate_schema:format_dataclass_field", stmt=row["case"], message=row["message"],
+                  file=gsfile, line=row.get("line", 0))
     rep.extra.update(primitive_members=len(members))
     rep.assumptions.append("NOT decided: input->output faithfulness of the generator for arbitrary definitions (see DESIGN.md C16)")
     rep.trusted_base += ["kverif E2 evaluation of codegen's pure functions; pydantic validators are modelled as identity decorators"]
